@@ -54,6 +54,7 @@ type Exec struct {
 	safeCount map[string]int
 	errs      []string
 	paramObs  []Observable
+	usedAsserts map[string]bool
 	topFrame  *Frame
 	cellPtr   map[string]Val // local cells holding interior pointers
 	names     map[string]int
@@ -68,7 +69,7 @@ func newExec(prog *Program, ctr *Contracts, fn *ssa.Function, fc *FuncContract) 
 	return &Exec{prog: prog, ctr: ctr, sc: newScript(), top: fn, fc: fc,
 		hsort: map[string]Sort{}, written: map[string]bool{}, typeCache: map[string]types.Type{},
 		tags: map[string]int{}, strs: map[string]int{"": 0}, abstr: map[string]bool{}, externs: map[string]bool{},
-		assumed: map[string]bool{}, inlined: map[string]bool{}, safeCount: map[string]int{}, kinds: map[string]string{}, leafTyp: map[string]types.Type{}}
+		assumed: map[string]bool{}, inlined: map[string]bool{}, safeCount: map[string]int{}, usedAsserts: map[string]bool{}, kinds: map[string]string{}, leafTyp: map[string]types.Type{}}
 }
 
 func (ex *Exec) fname() string {
@@ -730,9 +731,6 @@ func (fr *Frame) loopIter(l *Loop) *IterInfo {
 func (fr *Frame) enterLoop(l *Loop, phis []*ssa.Phi, phiEntry map[*ssa.Phi]Val) {
 	ex := fr.ex
 	invs := fr.loopInvariants(l)
-	if !fr.top {
-		panic(oos("loop in inlined function %s (needs a contract)", fr.fn.Name()))
-	}
 	// discover the heap keys written by the loop body
 	written := fr.discoverWrites(l, phis)
 	// inv-init
@@ -751,7 +749,7 @@ func (fr *Frame) enterLoop(l *Loop, phis []*ssa.Phi, phiEntry map[*ssa.Phi]Val) 
 	}
 	ex.loopRefs[l.head] = stLoopEntry
 	l.written = written
-	for _, cd := range fr.candidates(l, phiEntry, fr.st) {
+	for _, cd := range fr.candidatesTop(l, phiEntry, fr.st) {
 		ex.addOblig("cand", cd.name+"@init", ex.prog.pos(blockPos(l.head)), mkImp(fr.cur, cd.term), "inferred candidate")
 	}
 	// havoc
@@ -784,7 +782,7 @@ func (fr *Frame) enterLoop(l *Loop, phis []*ssa.Phi, phiEntry map[*ssa.Phi]Val) 
 	for _, g := range fr.autoInvariants(l, phiH, fr.st) {
 		fr.assume(g)
 	}
-	for _, cd := range fr.candidates(l, phiH, fr.st) {
+	for _, cd := range fr.candidatesTop(l, phiH, fr.st) {
 		fr.assume(cd.term)
 	}
 	// alloc monotone
@@ -854,12 +852,19 @@ func (fr *Frame) backEdge(from, head *ssa.BasicBlock, cond string) {
 	for i, g := range fr.autoInvariants(l, phiVals, fr.st) {
 		ex.addOblig("inv-keep", fmt.Sprintf("%d.auto%d", l.ord, i), ex.prog.pos(blockPos(head)), mkImp(cond, g), "auto")
 	}
-	for _, cd := range fr.candidates(l, phiVals, fr.st) {
+	for _, cd := range fr.candidatesTop(l, phiVals, fr.st) {
 		ex.addOblig("cand", cd.name+"@keep", ex.prog.pos(blockPos(head)), mkImp(cond, cd.term), "inferred candidate")
 	}
 }
 
 type candidate struct{ name, term string }
+
+func (fr *Frame) candidatesTop(l *Loop, phiVals map[*ssa.Phi]Val, st *State) []candidate {
+	if !fr.top {
+		return nil
+	}
+	return fr.candidates(l, phiVals, st)
+}
 
 // candidates: inferred (Houdini) loop invariants. Each is assumed at the loop
 // head and checked at entry and on every back edge; the driver drops the ones
@@ -1154,4 +1159,18 @@ func describe(v ssa.Value) string {
 
 func shortType(t types.Type) string {
 	return strings.ReplaceAll(types.TypeString(t, nil), raftPath+".", "")
+}
+
+// innermostLoopCtx: the loop context (for #i etc.) of the innermost loop containing block b.
+func (fr *Frame) innermostLoopCtx(b *ssa.BasicBlock) *LoopCtx {
+	var best *Loop
+	for _, l := range fr.loops {
+		if l.blocks[b] && (best == nil || len(l.blocks) < len(best.blocks)) {
+			best = l
+		}
+	}
+	if best == nil {
+		return nil
+	}
+	return fr.loopCtx[best.head]
 }
